@@ -39,7 +39,7 @@ func guarded(f func()) string {
 }
 
 type sweepStats struct {
-	n, nok, ncalls int
+	n, nok, ncalls, nargcalls int
 	bad            []any
 }
 
@@ -76,13 +76,24 @@ func parseAndTouch(st *sweepStats, rd Reader, in []byte, a Args, what string) {
 			st.add(what, "method "+mo.Method, "hang")
 		}
 	}
+	// then the methods that take arguments (after the argument-free ones: some of them modify the value)
+	argOuts, _ := callArgMethods(v)
+	for _, mo := range argOuts {
+		st.ncalls++
+		st.nargcalls++
+		if mo.Panicked {
+			st.add(what, "method "+mo.Method, mo.Msg)
+		} else if mo.Hung {
+			st.add(what, "method "+mo.Method, "hang")
+		}
+	}
 }
 
 func (st *sweepStats) res() Res {
 	if st.bad == nil {
 		st.bad = []any{}
 	}
-	return Res{"n": st.n, "nok": st.nok, "ncalls": st.ncalls, "bad": st.bad}
+	return Res{"n": st.n, "nok": st.nok, "ncalls": st.ncalls, "nargcalls": st.nargcalls, "bad": st.bad}
 }
 
 type codeFunc func(code int, in []byte)
